@@ -24,6 +24,7 @@ import CssVerif.Props.C20
 import CssVerif.Proofs.Upto
 import CssVerif.Model.ReAmbig
 import CssVerif.Gen.Profiles
+import CssVerif.Gen.Colors
 namespace CssVerif.C01
 open CssVerif CssVerif.Re
 
@@ -54,6 +55,11 @@ def flaggedProfiles : List (String × String) := [
 theorem profile_patterns :
     (Gen.profileRes.filter (fun p => !starsOK p.2.2)).map (fun p => (p.1, p.2.1)) = flaggedProfiles ∧
     Gen.profileSkipped = [] := by decide +kernel
+
+/-- the pattern that decides whether a HASH is a hex colour ends at the end of the text in both copies (value.py,
+prodparser.py): with `$` the HASH `#abc` + newline (written `#abc\\a `) counted as a six-digit colour and the conversion
+of its empty last pair raised ValueError out of parseString -/
+theorem hexcolor_pattern_ends_strictly : Gen.hexColorStrictEnd = true := by decide
 
 /-- the three exponential shapes of the pinned snapshot are rejected by the analysis, their repairs accepted -/
 theorem snapshot_patterns :
